@@ -637,8 +637,9 @@ def evaluate(cur, ops, obs, premises_only=False):
     The reference knows frames (number of advances), not buckets: an item scheduled `off` frames ahead at
     frame t belongs to frame t + off, whoever schedules it - an operation of the history or a callback
     from inside tdma_sched_execute() (then t is the frame being executed; off = 0 is that very frame, the
-    item has to run in the same execute).  A frame holds at most NCB items (run or not) until it has been
-    executed.  Items with the same callback and parameters in one frame are told apart only by their
+    item has to run in the same execute).  A frame holds at most NCB items until it has been executed; whether
+    items of the frame being executed that have already run still count is left open (either answer of a call
+    from inside is accepted while only the items still to run fit).  Items with the same callback and parameters in one frame are told apart only by their
     number (they must have the same priority, otherwise the history is skipped)."""
     po = premises_only
     if po:
@@ -665,9 +666,17 @@ def evaluate(cur, ops, obs, premises_only=False):
         key = (cb, p1, p2, p3)
         T = t + off
         l, h = lo.get(T, 0), hi.get(T, 0)
+        where = " from inside a callback" if inside else ""
+        if inside and off == 0:
+            l = max(0, l - sum(1 for x in pend.get(t, []) if x.ran))
+            if l < NCB <= h and rc in (0, -1):
+                # the items that already ran may or may not count: both answers are admissible, follow the code
+                if rc == 0:
+                    place(T, key, prio, fly=True)
+                    lo[T], hi[T] = lo.get(T, 0) + 1, h + 1
+                return None
         if l < NCB <= h:
             return "n/a"
-        where = " from inside a callback" if inside else ""
         if h < NCB:
             if rc is not None and rc != 0:
                 return {"what": "tdma_schedule%s into a frame holding %d items did not return 0" % (where, h), "op_index": i, "got": rc}
